@@ -438,6 +438,11 @@ def abstract(sess, late_acks=False):
                     continue
                 if p.flags & F_MULTI or not (p.flags & F_REL) or p.type not in (TYPE_DATA, TYPE_PING, TYPE_DISCONNECT):
                     continue
+                if late_acks:
+                    # over a slow stream the acknowledgements can be late enough for retransmissions: not new emissions
+                    j0 = cur.get((d, sub, p.packet_id))
+                    if j0 is not None and sess_emitted(ev[(d, sub)], j0) == (p.packet_id, kind_of(p), p.fragment_id, bytes(p.payload)):
+                        continue
                 j = nlog[(d, sub)]
                 nlog[(d, sub)] += 1
                 cur[(d, sub, p.packet_id)] = j
